@@ -4,11 +4,16 @@
 package c01
 
 import (
+	"bytes"
 	"context"
+	"encoding/json"
 	"fmt"
-	"os"
 	"math/rand"
+	"net/http"
+	"net/http/httptest"
+	"os"
 	"runtime"
+	"sync"
 	"sync/atomic"
 	"testing"
 	"time"
@@ -187,13 +192,41 @@ func executeInRerunner(schema *graphql.Schema, sched graphql.WorkScheduler, text
 	return results
 }
 
+// executeHTTP sends the query through graphql's HTTP entry point (the handler
+// runs it in a rerunner with batching, like a production server).
+func executeHTTP(schema *graphql.Schema, sched graphql.WorkScheduler, text string, vars map[string]interface{}, w *gen.World, flag bool) execResult {
+	body, err := json.Marshal(map[string]interface{}{"query": text, "variables": vars})
+	if err != nil {
+		return execResult{err: err, at: "harness: marshal request"}
+	}
+	req := httptest.NewRequest("POST", "/graphql", bytes.NewReader(body))
+	req = req.WithContext(gen.WithUseBatch(gen.WithWorld(req.Context(), w), flag))
+	rec := httptest.NewRecorder()
+	graphql.HTTPHandlerWithExecutor(schema, graphql.NewExecutor(sched)).ServeHTTP(rec, req)
+	if rec.Code != http.StatusOK {
+		return execResult{err: fmt.Errorf("HTTP status %d: %s", rec.Code, rec.Body.String()), at: "HTTPHandler"}
+	}
+	var resp struct {
+		Data   interface{} `json:"data"`
+		Errors []string    `json:"errors"`
+	}
+	dec := json.NewDecoder(bytes.NewReader(rec.Body.Bytes()))
+	if err := dec.Decode(&resp); err != nil {
+		return execResult{err: fmt.Errorf("response is not JSON: %v: %s", err, vlib.Trunc(rec.Body.String(), 300)), at: "HTTPHandler"}
+	}
+	if len(resp.Errors) > 0 {
+		return execResult{err: fmt.Errorf("%v", resp.Errors), at: "HTTPHandler"}
+	}
+	return execResult{val: resp.Data, at: "HTTPHandler"}
+}
+
 func TestCheck(t *testing.T) {
 	run := vlib.Start(t, "C01", "exploration")
 	defer run.Finish()
 	reactive.WriteThenReadDelay = 0
 	sd := gen.Zoo()
 	run.Rule("queries generated over a zoo schema (keyed/unkeyed objects, value and pointer lists with nil entries, union, enum, args by literal/variable/default) with duplicate aliases, inline and named fragments (re-used), unions; " +
-		"each query is executed under several per-field mode configurations (plain/Expensive/batch/batch+fallback both flags/NumParallelInvocations k) x work schedulers (thunder's + FIFO/LIFO/random/pool/yield) and inside a Rerunner twice; " +
+		"each query is executed under several per-field mode configurations (plain/Expensive/batch/batch+fallback both flags/NumParallelInvocations k) x work schedulers (thunder's + FIFO/LIFO/random/pool/yield), inside a Rerunner twice, through graphql.HTTPHandlerWithExecutor, and as one prepared query shared by 3 concurrent requests over different data; " +
 		"every result is compared with an independent sequential reference evaluator. Non-trivial = query shows >= 2 of {duplicate alias, fragment, union, list, arguments, depth >= 3}; distinct by AST shape.")
 	run.Assume("reference evaluator gen.Eval and generator gen.Generate are correct; only valid queries inside thunder's documented feature set (no directives here, see C19)")
 	nCfg := run.N(5, 10)
@@ -311,6 +344,66 @@ func TestCheck(t *testing.T) {
 					}
 				}
 			}
+		}
+		// one parsed and prepared query executed by several requests at once,
+		// each over its own data: nothing a request computes may leak into another
+		{
+			cfg := configs[(i+2)%len(configs)]
+			q, err := graphql.Parse(text, vars)
+			if err == nil {
+				err = graphql.PrepareQuery(context.Background(), cfg.schema.Query, q.SelectionSet)
+			}
+			if err != nil {
+				report(cfg, "shared-prepared-query", true, execResult{err: err, at: "Parse/PrepareQuery"})
+			} else {
+				const par = 3
+				worlds := make([]*gen.World, par)
+				res := make([]execResult, par)
+				var wg sync.WaitGroup
+				for g := 0; g < par; g++ {
+					worlds[g] = w
+					if g > 0 {
+						worlds[g] = gen.NewWorld(w.Seed+uint64(g)*7919, w.N, w.M)
+					}
+					wg.Add(1)
+					go func(g int) {
+						defer wg.Done()
+						ctx := gen.WithUseBatch(gen.WithWorld(context.Background(), worlds[g]), (i+g)%2 == 0)
+						sc := scheds[(i+g)%len(scheds)]
+						val, err := graphql.NewExecutor(sc.New(int64(i+g))).Execute(ctx, cfg.schema.Query, nil, q)
+						res[g] = execResult{val: val, err: err, at: "Execute(shared prepared query, " + sc.Name + ")"}
+					}(g)
+				}
+				wg.Wait()
+				for g := 0; g < par; g++ {
+					run.Count("shared_prepared_query_runs", 1)
+					atomic.AddInt64(&executions, 1)
+					wantG, err := gen.Eval(sd, doc, worlds[g])
+					if err != nil {
+						run.Broken(fmt.Sprintf("case %d: reference evaluation over world %d: %v", i, g, err))
+						continue
+					}
+					wc := vlib.Canon(wantG)
+					wit := map[string]interface{}{"query": text, "variables": vars, "world": map[string]interface{}{"seed": worlds[g].Seed, "n": w.N, "m": w.M},
+						"config": cfg.name, "modes": fmt.Sprint(cfg.cfg.Modes), "stage": res[g].at, "concurrent_requests": par, "expected": vlib.Trunc(wc, 3000)}
+					if res[g].err != nil {
+						wit["what"] = "valid query failed when the prepared query is shared by concurrent requests"
+						wit["error"] = res[g].err.Error()
+						run.Violation(i, "", wit)
+					} else if gc := vlib.Canon(res[g].val); gc != wc {
+						wit["what"] = "result differs from the reference when one prepared query serves concurrent requests over different data"
+						wit["got"] = vlib.Trunc(gc, 3000)
+						run.Violation(i, "", wit)
+					}
+				}
+			}
+		}
+		// through the HTTP entry point
+		{
+			cfg := configs[(i+3)%len(configs)]
+			s := (i + 1) % len(scheds)
+			run.Count("http_runs", 1)
+			report(cfg, scheds[s].Name+"+http", i%2 == 1, executeHTTP(cfg.schema, scheds[s].New(int64(i)), text, vars, w, i%2 == 1))
 		}
 		// server-like execution inside a rerunner (reactive cache path)
 		cfg := configs[i%len(configs)]
